@@ -69,6 +69,10 @@ pub struct Profile {
     /// percentage of cases in which every request of a kind has the same content (an application
     /// that publishes the same message again and again): identical packets on the wire
     pub twins_pct: u32,
+    /// percentage of cases in which the broker announces every planned Maximum Packet Size even
+    /// if something retained no longer fits (the connection is then stuck by design; only rules
+    /// that hold on a stuck connection may be judged by a check that sets this)
+    pub unconditional_limits_pct: u32,
 }
 
 impl Default for Profile {
@@ -122,6 +126,7 @@ impl Default for Profile {
             session_expiry: vec![3600, 3600, 3600, 3600, 1, 0, u32::MAX],
             shrink_mps_pct: 15,
             twins_pct: 5,
+            unconditional_limits_pct: 0,
         }
     }
 }
@@ -470,8 +475,8 @@ pub fn conn_script(p: &Profile) -> BoxedStrategy<ConnScript> {
 }
 
 pub fn cfg(p: &Profile) -> BoxedStrategy<Cfg> {
-    (p.rx.0..=p.rx.1, p.tx.0..=p.tx.1, pct(p.downgrade_pct), prop::sample::select(p.keepalive.clone()), prop::sample::select(p.session_expiry.clone()))
-        .prop_map(|(rx, tx, downgrade, keepalive, session_expiry)| Cfg { rx, tx, downgrade, keepalive, session_expiry, ..Cfg::default() })
+    (p.rx.0..=p.rx.1, p.tx.0..=p.tx.1, pct(p.downgrade_pct), prop::sample::select(p.keepalive.clone()), prop::sample::select(p.session_expiry.clone()), pct(p.unconditional_limits_pct))
+        .prop_map(|(rx, tx, downgrade, keepalive, session_expiry, unconditional_limits)| Cfg { rx, tx, downgrade, keepalive, session_expiry, unconditional_limits, ..Cfg::default() })
         .boxed()
 }
 
